@@ -12,6 +12,7 @@ structure St where
   lc : LC := { chain := [], stored := [] }
   metas : List (Option BlockMeta) := []
   txsAt : List (Int × List Bytes) := []
+  stxs : List (Option ResultTx) := []
 
 def hexList (s : String) : Option (List Bytes) := (splitComma s).mapM ofHex
 
@@ -146,8 +147,32 @@ def step (s : St) (toks : List String) : St × String :=
     match (kv t "n").bind String.toNat?, (kv t "nv").bind String.toNat?, (kv t "root").bind String.toNat? with
     | some n, some nv, some root =>
       if n < 1 ∨ n > 40 ∨ nv < 1 ∨ nv > 8 ∨ root < 1 ∨ root > n then (s, "bad-op")
-      else ({ inited := true, n := n, lc := { chain := [], stored := [(root : Int)] }, metas := [], txsAt := [] }, "ok")
+      else ({ inited := true, n := n, lc := { chain := [], stored := [(root : Int)] }, metas := [], txsAt := [], stxs := [] }, "ok")
     | _, _, _ => (s, "bad-op")
+  | ["routes"] => (s, ",".intercalate routeNames)
+  | "route" :: t =>
+    match kv t "name" with
+    | some n =>
+      (s, match routeClass n with
+        | some .verified => "verified" | some .lightClient => "lightclient" | some .relayed => "relayed"
+        | some .websocket => "websocket" | none => "unknown")
+    | none => (s, "bad-op")
+  | "stx" :: t =>
+    if !ready s then (s, "bad-op") else
+    if kv t "nil" = some "1" then ({ s with stxs := s.stxs ++ [none] }, "ok") else
+    match (kv t "rhash").bind ofHex, (kv t "rht").bind String.toInt?, (kv t "ridx").bind String.toNat?,
+          (kv t "rtx").bind ofHex, (kv t "rcode").bind String.toNat?, (kv t "rdata").bind ofHex,
+          (kv t "proot").bind ofHex, (kv t "pdata").bind ofHex, (kv t "proof").bind parseProofTok with
+    | some rh, some ht, some idx, some rtx, some rc, some rd, some proot, some pdata, some pr =>
+      let tp : TxProof.TxProof := TxProof.TxProof.mk proot pdata pr
+      ({ s with stxs := s.stxs ++ [some (ResultTx.mk rh ht idx rtx rc rd tp)] }, "ok")
+    | _, _, _, _, _, _, _, _, _ => (s, "bad-op")
+  | "txsearchv" :: t =>
+    if !ready s then (s, "bad-op") else
+    if kv t "err" = some "1" then ({ s with stxs := [] }, "err:next") else
+    if kv t "prove" = some "0" then ({ s with stxs := [] }, "ok-unverified") else
+    let (v, lc') := verifyTxSearch Hs s.lc s.stxs
+    ({ s with lc := lc', stxs := [] }, showVerdict v)
   | "committed" :: t =>
     match kv t "kind", kv t "field" with
     | some k, some f =>
